@@ -279,14 +279,30 @@ pub fn child_main(args: &[String]) -> i32 {
     let mut last_change = Instant::now();
     let mut os_proof: Option<String> = None;
     let mut os_tried = 0u32;
+    let mut last_snap: Vec<(u64, char, u64)> = Vec::new();
+    let mut last_os_change = Instant::now();
+    let mut last_os_sample = Instant::now();
     let result = loop {
         match rx.recv_timeout(Duration::from_millis(200)) {
             Ok(r) => break Some(r),
             Err(std::sync::mpsc::RecvTimeoutError::Timeout) => {
                 // past the deadline: give up only when the log has stopped growing (a run that still
                 // logs events is slow - e.g. on a loaded machine - not stuck), or at 6 x the deadline
-                if start.elapsed() > deadline && (last_change.elapsed() > Duration::from_secs(30) || start.elapsed() > 6 * deadline) {
-                    break None;
+                // (phases without hook points - the final compression, finalize - log nothing: the
+                // threads' scheduling counters are the second progress signal)
+                if start.elapsed() > deadline {
+                    if last_os_sample.elapsed() > Duration::from_secs(2) {
+                        last_os_sample = Instant::now();
+                        let snap = thread_snapshot();
+                        if snap != last_snap {
+                            last_snap = snap;
+                            last_os_change = Instant::now();
+                        }
+                    }
+                    let quiet = last_change.elapsed().min(last_os_change.elapsed());
+                    if quiet > Duration::from_secs(30) || start.elapsed() > 6 * deadline {
+                        break None;
+                    }
                 }
                 // no event for 4 s: if the log already proves a stuck state there is no point in waiting
                 let n = vh::log_len();
